@@ -655,6 +655,47 @@ def special_cases():
   if after_opt != fresh:
     bad.append(('special:option-leaks-into-next-run', 'run without stop_on_first_failure after a run with it: %r; a fresh Test gives %r '
                 '(the run with the option: %r)' % (after_opt, fresh, with_opt)))
+  # (d) one Test executed several times, each time with a different start callable: each record carries that run's id
+  base = make_base()
+  t3 = h.Test(base['Y'], notes={'seen': []})
+  c3 = htf.Capture()
+  t3.add_output_callbacks(c3)
+  for i in (1, 2, 3):
+    del c3.records[:]
+    t3.execute(test_start=(lambda i=i: 'SN-%04d' % i))
+    got = c3.records[0].dut_id if c3.records else None
+    if got != 'SN-%04d' % i:
+      bad.append(('special:stale-test-start', 'run %d was started with a callable returning SN-%04d, its record says dut_id %r' % (i, i, got)))
+      break
+  # (e) groups made by one with_context / with_setup / with_teardown factory own their setup and teardown phases
+  from openhtf.core import phase_group as pg  # pylint: disable=g-import-not-at-top
+  base = make_base()
+
+  def su_body(test):
+    pass
+
+  def td_body(test):
+    pass
+
+  su = h.PhaseOptions(name='su')(su_body)
+  td = h.measures(h.Measurement('tdm'))(h.PhaseOptions(name='td')(td_body))
+  for fname, factory in (('with_context', pg.PhaseGroup.with_context([su], [td])), ('with_setup', pg.PhaseGroup.with_setup(su)),
+                         ('with_teardown', pg.PhaseGroup.with_teardown(td))):
+    g1, g2 = factory(base['Y']), factory(base['Z'])
+    ids1 = {id(x) for x in leaf_phases(g1)}
+    ids2 = {id(x) for x in leaf_phases(g2)}
+    if ids1 & ids2 or (ids1 | ids2) & {id(su), id(td)}:
+      bad.append(('special:factory-shares-phases', 'two groups made by one PhaseGroup.%s factory share phase objects (with each other or '
+                  'with the phases the factory was given)' % fname))
+      continue
+    snap2, snap_src = snap(g2), (snap(su), snap(td))
+    for p_ in leaf_phases(g1):
+      p_.options.timeout_s = 1234
+      for m in p_.measurements:
+        m.with_validator(is_tiny)
+    if snap(g2) != snap2 or (snap(su), snap(td)) != snap_src:
+      bad.append(('special:factory-aliasing', 'modifying the phases of one group made by PhaseGroup.%s changed a sibling group or the '
+                  'phases the factory was given' % fname))
   return [(k, w, {'part': 'special'}) for k, w in bad]
 
 
